@@ -12,9 +12,10 @@ SPEC = {"module": "models.ormmodel", "profile": "handwritten", "order": [], "cla
                                                  f("opt", "opt_float")]},
     {"name": "Mid", "parent": "Base0", "fields": [f("owner", "opt_ref", "Holder"), f("budget", "opt_money")]},
     {"name": "Leaf", "parent": "Mid", "fields": [f("things", "list_ref", "Item"), f("where", "opt_ref", "Vec")]},
-    {"name": "ShapeBase", "parent": None, "fields": [f("uid", "int"), f("name", "str")]},
+    {"name": "Port", "parent": None, "fields": [f("uid", "int"), f("shape", "opt_ref", "ShapeBase")]},
+    {"name": "ShapeBase", "parent": None, "fields": [f("uid", "int"), f("name", "str"), f("ports", "list_ref", "Port")]},
     {"name": "Circle", "parent": "ShapeBase", "fields": [f("r", "float"), f("center", "opt_ref", "Vec")]},
 ]}
 SPEC["order"] = [c["name"] for c in SPEC["classes"]]
 # references to an alternatively mapped class that takes part in reference cycles (listed finding of C04/C05)
-SPEC["alt_cycle_fields"] = ["pin"]
+SPEC["alt_cycle_fields"] = ["pin", "shape"]
